@@ -90,6 +90,13 @@ pub trait Check: Sync {
     fn runs(&self, tier: Tier) -> u64;
     fn generate(&self, run_seed: u64, index: u64, tier: Tier) -> Case;
     fn execute(&self, case: &Case) -> Outcome;
+    /// Optional fast path: generate and execute run `index` without building the
+    /// explicit (JSON) case; must be observationally identical to
+    /// `execute(&generate(..))`. The explicit case is then only built for samples
+    /// and failures.
+    fn run_fast(&self, _run_seed: u64, _index: u64, _tier: Tier) -> Option<Outcome> {
+        None
+    }
     /// candidate simplifications of a failing case, most aggressive first
     fn shrink(&self, case: &Case) -> Vec<Case> {
         crate::minimise::shrink_scenario_case(case)
@@ -252,8 +259,13 @@ pub fn run_check(chk: &dyn Check, cfg: &RunConfig) -> i32 {
                         break;
                     }
                     let rs = run_seed(cfg.seed, prop, i);
-                    let case = chk.generate(rs, i, cfg.tier);
-                    let out = chk.execute(&case);
+                    let (out, case) = match chk.run_fast(rs, i, cfg.tier) {
+                        Some(o) => (o, None),
+                        None => {
+                            let case = chk.generate(rs, i, cfg.tier);
+                            (chk.execute(&case), Some(case))
+                        }
+                    };
                     let mut new_viol = Vec::new();
                     let mut known_here = Vec::new();
                     for v in &out.violations {
@@ -285,9 +297,11 @@ pub fn run_check(chk: &dyn Check, cfg: &RunConfig) -> i32 {
                         *a.known_hits.entry(k).or_insert(0) += 1;
                     }
                     if a.samples.len() < 3 && (i < 2 || (out.nontrivial && a.samples.len() < 3)) {
+                        let case = case.clone().unwrap_or_else(|| chk.generate(rs, i, cfg.tier));
                         a.samples.push(json!({"run_index": i, "run_seed": rs, "case": chk.sample(&case)}));
                     }
                     if !new_viol.is_empty() {
+                        let case = case.unwrap_or_else(|| chk.generate(rs, i, cfg.tier));
                         a.failures.push((i, case, new_viol));
                         first_fail.fetch_min(i, Ordering::SeqCst);
                         stop.store(true, Ordering::SeqCst);
@@ -495,6 +509,15 @@ pub fn digest(chk: &dyn Check, seed: u64, n: u64, jobs: usize, tier: Tier) {
                 let rs = run_seed(seed, chk.id(), i);
                 let case = chk.generate(rs, i, tier);
                 let out = chk.execute(&case);
+                // the fast path (no explicit case) must be observationally identical
+                if let Some(f) = chk.run_fast(rs, i, tier) {
+                    let a: Vec<String> = f.all.iter().map(|v| v.signature()).collect();
+                    let b: Vec<String> = out.all.iter().map(|v| v.signature()).collect();
+                    if f.fp != out.fp || a != b {
+                        eprintln!("harness error: fast path differs from the explicit case for {} run {}", chk.id(), i);
+                        std::process::exit(2);
+                    }
+                }
                 let sigs: Vec<String> = out.all.iter().map(|v| v.signature()).collect();
                 let case_fp = mix(&[crate::rng::str_hash(&case.to_json().to_string())]);
                 res.lock().unwrap().insert(i, format!("{:016x} {:016x} {}", case_fp, out.fp, sigs.join(",")));
